@@ -1,7 +1,7 @@
 #!/usr/bin/env python3
 """Run every seeded change (or the ones named) through lib/selftest.py, several mirrors side by side.
 
-  lib/sweep_seeded.py [--slots N] [--tier quick|thorough] [--seed N] [--out DIR] [<seeded id> ...]
+  lib/sweep_seeded.py [--slots N] [--slot-base K] [--tier quick|thorough] [--seed N] [--out DIR] [<seeded id> ...]
 
 Each slot owns one persistent mirror /root/scratch/st<k> (SELFTEST_DIR), so cargo only rebuilds what a
 patch changed. One log per seeded change is written to DIR/<id>.log in the format lib/seeded_results.py
@@ -18,6 +18,9 @@ ROOT = os.path.dirname(os.path.dirname(os.path.abspath(__file__)))
 def main():
     args = sys.argv[1:]
     slots, tier, seed, out = 3, "quick", "1", "/root/scratch/sweep"
+    base = 0
+    if "--slot-base" in args:
+        i = args.index("--slot-base"); base = int(args[i + 1]); del args[i:i + 2]
     for flag in ("--slots", "--tier", "--seed", "--out"):
         if flag in args:
             i = args.index(flag)
@@ -30,7 +33,7 @@ def main():
     ids = args or sorted(d for d in os.listdir(f"{ROOT}/seeded") if os.path.isdir(f"{ROOT}/seeded/{d}"))
     os.makedirs(out, exist_ok=True)
     free = queue.Queue()
-    for k in range(slots):
+    for k in range(base, base + slots):
         free.put(k)
 
     def one(sid):
